@@ -186,13 +186,26 @@ Definition fixed_kind (t : Z) (n : nat) : Prop :=
   (t = c06_rfbSetServerInput /\ n = (nat_of c06_sz_SetServerInput - 1)%nat) \/
   (t = c06_rfbXvp /\ n = (nat_of c06_sz_Xvp - 1)%nat).
 
+(* messages that concern other parts of the server and never cause an input callback: the four
+   fixed-size ones, TextChat (open / close / finished, or a text of 1..4095 bytes) and
+   SetDesktopSize (header + 16 bytes per screen) *)
+Definition silent_kind (t : Z) (b : list Z) : Prop :=
+  fixed_kind t (length b) \/
+  (t = c06_rfbTextChat /\ exists pad len text,
+     b = pad ++ be32 len ++ text /\ length pad = 3%nat /\
+     ((text = [] /\ (len = c06_rfbTextChatOpen \/ len = c06_rfbTextChatClose \/ len = c06_rfbTextChatFinished)) \/
+      (0 < len < c06_rfbTextMaxSize /\ Z.of_nat (length text) = len))) \/
+  (t = c06_rfbSetDesktopSize /\ exists hdr screens n,
+     b = hdr ++ screens /\ length hdr = 7%nat /\ nth_error hdr 5 = Some n /\ 0 <= n /\
+     Z.of_nat (length screens) = n * c06_sz_ExtDesktopScreen).
+
 Definition enc_setenc (encs : list Z) : list Z :=
   [c06_rfbSetEncodings; 0] ++ be16 (Z.of_nat (length encs)) ++ concat (map be32 encs).
 
 Definition wmsg_ok (w : wmsg) : Prop :=
   match w with
   | WIn m => input_ok m
-  | WFixed t b => fixed_kind t (length b)
+  | WFixed t b => silent_kind t b
   | WSetEnc encs => Z.of_nat (length encs) < 65536 /\ Forall (fun e => 0 <= e < two32) encs
   | WPixFmt b => length b = (nat_of c06_sz_SetPixelFormat - 1)%nat /\
                  exists bpp tc, byte_at (c06_rfbSetPixelFormat :: b) c06_off_spf_bpp = Some bpp /\
@@ -237,7 +250,7 @@ Variable ext_cut : bool -> clipst -> list Z -> clipst * list utf8cb * bool.
 
 Lemma parse_fixed : forall e xl i t b r, fixed_kind t (length b) -> st_bytes i = (t :: b) ++ r ->
   exists m j, parse_normal e xl i = ROk m j /\ st_bytes j = r /\ st_eof j = st_eof i /\
-              forall cfg o c, apply_normal ext_cut cfg o c m = applied_same c o.
+              forall cfg o c, exists k, apply_normal ext_cut cfg o c m = applied_same (set_clip c k) o.
 Proof.
   intros e xl i t b r K H. cbn [app] in H.
   destruct (parse_normal_type e xl i _ _ H) as (j & P & B & E). rewrite P.
@@ -245,19 +258,86 @@ Proof.
   - change (parse_body e xl c06_rfbFramebufferUpdateRequest) with
       (bind (read_rest c06_rfbFramebufferUpdateRequest c06_sz_FramebufferUpdateRequest) (fun m => ret (MFUR m))).
     destruct (read_rest_app c06_rfbFramebufferUpdateRequest c06_sz_FramebufferUpdateRequest j b r B L) as (j' & R & B' & E').
-    rewrite (bind_ok _ _ _ _ _ _ _ R). eexists _, j'. unfold ret. repeat split; auto; congruence.
+    rewrite (bind_ok _ _ _ _ _ _ _ R). eexists _, j'. unfold ret.
+    split; [reflexivity|]. split; [exact B'|]. split; [congruence|].
+    intros cfg o c. exists (c_clip c). destruct c; reflexivity.
   - change (parse_body e xl c06_rfbSetSW) with
       (bind (read_rest c06_rfbSetSW c06_sz_SetSW) (fun m => ret (MSetSW m))).
     destruct (read_rest_app c06_rfbSetSW c06_sz_SetSW j b r B L) as (j' & R & B' & E').
-    rewrite (bind_ok _ _ _ _ _ _ _ R). eexists _, j'. unfold ret. repeat split; auto; congruence.
+    rewrite (bind_ok _ _ _ _ _ _ _ R). eexists _, j'. unfold ret.
+    split; [reflexivity|]. split; [exact B'|]. split; [congruence|].
+    intros cfg o c. exists (c_clip c). destruct c; reflexivity.
   - change (parse_body e xl c06_rfbSetServerInput) with
       (bind (read_rest c06_rfbSetServerInput c06_sz_SetServerInput) (fun m => ret (MSetServerInput m))).
     destruct (read_rest_app c06_rfbSetServerInput c06_sz_SetServerInput j b r B L) as (j' & R & B' & E').
-    rewrite (bind_ok _ _ _ _ _ _ _ R). eexists _, j'. unfold ret. repeat split; auto; congruence.
+    rewrite (bind_ok _ _ _ _ _ _ _ R). eexists _, j'. unfold ret.
+    split; [reflexivity|]. split; [exact B'|]. split; [congruence|].
+    intros cfg o c. exists (c_clip c). destruct c; reflexivity.
   - change (parse_body e xl c06_rfbXvp) with
       (bind (read_rest c06_rfbXvp c06_sz_Xvp) (fun m => ret (MXvp m))).
     destruct (read_rest_app c06_rfbXvp c06_sz_Xvp j b r B L) as (j' & R & B' & E').
-    rewrite (bind_ok _ _ _ _ _ _ _ R). eexists _, j'. unfold ret. repeat split; auto; congruence.
+    rewrite (bind_ok _ _ _ _ _ _ _ R). eexists _, j'. unfold ret.
+    split; [reflexivity|]. split; [exact B'|]. split; [congruence|].
+    intros cfg o c. exists (c_clip c). destruct c; reflexivity.
+Qed.
+
+Lemma parse_silent : forall e xl i t b r, silent_kind t b -> st_bytes i = (t :: b) ++ r ->
+  exists m j, parse_normal e xl i = ROk m j /\ st_bytes j = r /\ st_eof j = st_eof i /\
+              forall cfg o c, exists k, apply_normal ext_cut cfg o c m = applied_same (set_clip c k) o.
+Proof.
+  intros e xl i t b r [K|[K|K]] H; [exact (parse_fixed e xl i t b r K H)| |].
+  - destruct K as (Ht & pad & len & text & Hbb & Lp & Kt). subst t b.
+    destruct pad as [|p1 [|p2 [|p3 [|]]]]; try discriminate. cbn [app] in H.
+    destruct (parse_normal_type e xl i _ _ H) as (j & P & B & E). rewrite P.
+    change (parse_body e xl c06_rfbTextChat) with (parse_textchat c06_rfbTextChat). unfold parse_textchat.
+    assert (B0 : st_bytes j = ([p1; p2; p3] ++ be32 len) ++ (text ++ r))
+      by (rewrite B; cbn [app]; rewrite <- app_assoc; reflexivity).
+    destruct (read_rest_app c06_rfbTextChat c06_sz_TextChat j _ _ B0 eq_refl) as (j' & R & B' & E').
+    rewrite (bind_ok _ _ _ _ _ _ _ R).
+    assert (Hlen : 0 <= len < two32).
+    { destruct Kt as [(_ & [ -> | [ -> | -> ] ])|(Hr & _)]; unfold two32; try (vm_compute; split; [discriminate|reflexivity]).
+      unfold c06_rfbTextMaxSize in Hr. lia. }
+    change c06_off_tc_length with 4. cbn [app].
+    rewrite <- (app_nil_r (be32 len)). rewrite (be32_at_4 _ _ _ _ len [] Hlen). cbn [need].
+    destruct Kt as [(Htx & Kl)|(Hr & Hl)]; [subst text|].
+    + replace ((len =? c06_rfbTextChatOpen) || (len =? c06_rfbTextChatClose) || (len =? c06_rfbTextChatFinished)) with true
+        by (destruct Kl as [ -> | [ -> | -> ] ]; reflexivity).
+      eexists _, j'. unfold ret. split; [reflexivity|]. split; [exact B'|]. split; [congruence|].
+      intros cfg o c. exists (c_clip c). destruct c; reflexivity.
+    + replace ((len =? c06_rfbTextChatOpen) || (len =? c06_rfbTextChatClose) || (len =? c06_rfbTextChatFinished)) with false.
+      2:{ symmetry. unfold c06_rfbTextMaxSize, c06_rfbTextChatOpen, c06_rfbTextChatClose, c06_rfbTextChatFinished in *.
+          repeat (apply orb_false_iff; split); apply Z.eqb_neq; lia. }
+      replace ((0 <? len) && (len <? c06_rfbTextMaxSize)) with true
+        by (symmetry; apply andb_true_iff; split; apply Z.ltb_lt; lia).
+      assert (Hnat : nat_of len = length text) by (unfold nat_of; rewrite <- Hl; apply Nat2Z.id).
+      destruct (read_exact_app (nat_of len) j' text r B' (eq_sym Hnat)) as (j'' & R2 & B2 & E2).
+      rewrite (bind_ok _ _ _ _ _ _ _ R2). eexists _, j''. unfold ret.
+      split; [reflexivity|]. split; [exact B2|]. split; [congruence|].
+      intros cfg o c. exists (c_clip c). destruct c; reflexivity.
+  - destruct K as (Ht & hdr & screens & n & Hbb & Lh & Hn & Hn0 & Hl). subst t b.
+    destruct hdr as [|h1 [|h2 [|h3 [|h4 [|h5 [|h6 [|h7 [|]]]]]]]]; try discriminate.
+    cbn [nth_error] in Hn. inversion Hn; subst h6. cbn [app] in H.
+    destruct (parse_normal_type e xl i _ _ H) as (j & P & B & E). rewrite P.
+    change (parse_body e xl c06_rfbSetDesktopSize) with
+      (bind (read_rest c06_rfbSetDesktopSize c06_sz_SetDesktopSize) (fun m =>
+       need (byte_at m c06_off_sdm_nscreens) (fun n =>
+         if n =? 0 then ret (MSetDesktopSize m [])
+         else bind (read_exact (nat_of (n * c06_sz_ExtDesktopScreen))) (fun s => ret (MSetDesktopSize m s))))).
+    assert (B0 : st_bytes j = [h1; h2; h3; h4; h5; n; h7] ++ (screens ++ r)) by (rewrite B; reflexivity).
+    destruct (read_rest_app c06_rfbSetDesktopSize c06_sz_SetDesktopSize j _ _ B0 eq_refl) as (j' & R & B' & E').
+    rewrite (bind_ok _ _ _ _ _ _ _ R).
+    change (byte_at (c06_rfbSetDesktopSize :: [h1; h2; h3; h4; h5; n; h7]) c06_off_sdm_nscreens) with (Some n).
+    cbn [need].
+    destruct (n =? 0) eqn:E0.
+    + apply Z.eqb_eq in E0. subst n. destruct screens; [|cbn in Hl; lia]. cbn [app] in B'.
+      eexists _, j'. unfold ret. split; [reflexivity|]. split; [exact B'|]. split; [congruence|].
+      intros cfg o c. exists (c_clip c). destruct c; reflexivity.
+    + assert (Hnat : nat_of (n * c06_sz_ExtDesktopScreen) = length screens)
+        by (unfold nat_of; rewrite <- Hl; apply Nat2Z.id).
+      destruct (read_exact_app _ j' screens r B' (eq_sym Hnat)) as (j'' & R2 & B2 & E2).
+      rewrite (bind_ok _ _ _ _ _ _ _ R2). eexists _, j''. unfold ret.
+      split; [reflexivity|]. split; [exact B2|]. split; [congruence|].
+      intros cfg o c. exists (c_clip c). destruct c; reflexivity.
 Qed.
 
 Lemma read_words_spec : forall encs acc i r,
@@ -351,10 +431,12 @@ Proof.
     cbn [a_client a_events a_close_others a_owner]. rewrite c_in_set_in.
     replace (c_id (set_in c j)) with (c_id c0) by (destruct c; cbn in *; congruence).
     split; [apply cinv_set_in; exact I|repeat split; auto].
-  - destruct (parse_fixed (k_ext (c_clip c)) (fix_extlimit cfg) (c_in c) t body r K H) as (m & j & P & B & E & Ap). rewrite P.
+  - destruct (parse_silent (k_ext (c_clip c)) (fix_extlimit cfg) (c_in c) t body r K H) as (m & j & P & B & E & Ap). rewrite P.
     unfold apply_msg. replace (c_state (set_in c j)) with SNormal by (destruct c; cbn in *; congruence).
-    rewrite Ap. cbn [applied_same a_client a_events a_close_others a_owner]. rewrite c_in_set_in.
-    split; [apply cinv_set_in; exact I|repeat split; auto].
+    destruct (Ap cfg o (set_in c j)) as (k & Ak). rewrite Ak.
+    cbn [applied_same a_client a_events a_close_others a_owner].
+    replace (c_in (set_clip (set_in c j) k)) with j by (destruct c; reflexivity).
+    split; [apply cinv_set_clip; apply cinv_set_in; exact I|repeat split; auto].
   - destruct K as [Kn Kf].
     destruct (parse_setenc (k_ext (c_clip c)) (fix_extlimit cfg) (c_in c) encs r Kn Kf H) as (j & P & B & E). rewrite P.
     unfold apply_msg. replace (c_state (set_in c j)) with SNormal by (destruct c; cbn in *; congruence).
